@@ -93,6 +93,26 @@ def enclosing_ifs(node: ast.AST, stop: ast.AST) -> list:
     return out
 
 
+def branch_of(fn, node: ast.AST, text: str):
+    """'T' / 'F' / None: the truth value the flag `text` must have for the statement to run, read off the enclosing if-tests
+    (`if flag:`, `if not flag:`, `if flag is [not] True/False:`; an elif arm is the else arm of the tests before it)."""
+    for (i, b) in enclosing_ifs(node, fn.node):
+        t, neg = i.test, False
+        while isinstance(t, ast.UnaryOp) and isinstance(t.op, ast.Not):
+            t, neg = t.operand, not neg
+        if isinstance(t, ast.Compare) and len(t.ops) == 1 and isinstance(t.ops[0], (ast.Is, ast.IsNot, ast.Eq, ast.NotEq)) \
+                and isinstance(t.comparators[0], ast.Constant) and isinstance(t.comparators[0].value, bool) and norm(t.left) == text:
+            if isinstance(t.ops[0], (ast.IsNot, ast.NotEq)):
+                neg = not neg
+            if t.comparators[0].value is False:
+                neg = not neg
+            # `flag is False` decides the flag only in its true arm (the other arm admits None as well); accepted for a bool flag
+            t = t.left
+        if norm(t) == text:
+            return b if not neg else ("F" if b == "T" else "T")
+    return None
+
+
 def stmt_of(node: ast.AST) -> ast.AST:
     p = node
     while p is not None and not isinstance(p, ast.stmt):
